@@ -159,6 +159,8 @@ pub enum ErrClass {
     ZeroDivisor,
     NoSuchKey,
     Undeclared(String),
+    /// model only: a conversion argument outside the target range / NaN — the statement asks for "an error"
+    Range,
     /// any other execution error: unsupported operator / unexpected type / not comparable / bad
     /// index / argument count / function error
     Other,
@@ -171,6 +173,7 @@ impl ErrClass {
             ErrClass::ZeroDivisor => "err:zero-divisor",
             ErrClass::NoSuchKey => "err:no-such-key",
             ErrClass::Undeclared(_) => "err:undeclared",
+            ErrClass::Range => "err:conversion-range",
             ErrClass::Other => "err:other",
         }
     }
